@@ -39,10 +39,12 @@ pub struct Profile {
 	pub chain_equiv: bool,
 	/// forwarding-deadline scenarios on a line of three nodes (C08)
 	pub deadline_sweep: bool,
+	/// every node also feeds a real MonitorUpdatingPersister over a recording store (C19 c)
+	pub mup_shadow: bool,
 }
 impl Profile {
 	pub fn for_prop(prop: &str, thorough: bool) -> Profile {
-		let base = Profile { prop: prop.to_string(), steps: if thorough { 1500 } else { 600 }, nodes: 2, allow_async: false, allow_deferred: false, allow_disconnect: true, allow_fee_updates: true, allow_ticks: true, coop_close_at_end: true, multi_hop: false, mid_settles: true, allow_restart: false, allow_force_close: false, persist_manager_often: false, parallel: false, pay_workload: false, onchain: false, chain_equiv: false, deadline_sweep: false };
+		let base = Profile { prop: prop.to_string(), steps: if thorough { 1500 } else { 600 }, nodes: 2, allow_async: false, allow_deferred: false, allow_disconnect: true, allow_fee_updates: true, allow_ticks: true, coop_close_at_end: true, multi_hop: false, mid_settles: true, allow_restart: false, allow_force_close: false, persist_manager_often: false, parallel: false, pay_workload: false, onchain: false, chain_equiv: false, deadline_sweep: false, mup_shadow: false };
 		match prop {
 			"C01" => base,
 			"C05" => Profile { allow_async: true, allow_restart: true, allow_force_close: true, ..base },
@@ -51,6 +53,7 @@ impl Profile {
 			"C03" => Profile { allow_async: true, nodes: 3, multi_hop: true, allow_restart: true, parallel: true, pay_workload: true, ..base },
 			"C04" => Profile { allow_async: true, nodes: 3, multi_hop: true, parallel: true, pay_workload: true, ..base },
 			"C12" => Profile { allow_async: true, allow_deferred: true, nodes: 3, multi_hop: true, allow_restart: true, allow_force_close: true, parallel: true, pay_workload: true, ..base },
+			"C19" => Profile { mup_shadow: true, nodes: 3, multi_hop: true, parallel: true, pay_workload: true, allow_async: false, allow_force_close: true, ..base },
 			"C08" => Profile { deadline_sweep: true, steps: 0, nodes: 3, multi_hop: true, allow_async: false, coop_close_at_end: false, ..base },
 			"C11" => Profile { onchain: true, chain_equiv: true, steps: if thorough { 200 } else { 120 }, allow_async: false, coop_close_at_end: false, mid_settles: true, ..base },
 			"C06" | "C07" => Profile { onchain: true, steps: if thorough { 260 } else { 160 }, allow_async: false, coop_close_at_end: false, mid_settles: true, ..base },
@@ -178,7 +181,7 @@ fn run_one_inner(args: &Args, prof: &Profile, run: u64, rep: &mut Report, make_m
 		seed[9..17].copy_from_slice(&run.to_le_bytes());
 		let mut user = user_config(&mut rng, ctype);
 		user.channel_config.max_dust_htlc_exposure = dust_exposure;
-		cfgs.push(NodeCfg { user, deferred: prof.allow_deferred && rng.chance(1, 4), seed, epoch: 1000 * (i as u64 + 1) });
+		cfgs.push(NodeCfg { user, deferred: prof.allow_deferred && rng.chance(1, 4), seed, epoch: 1000 * (i as u64 + 1), mup_max_pending: if prof.mup_shadow { Some(*rng.pick(&[0u64, 1, 2, 3, 5, 10])) } else { None } });
 	}
 	let label = format!("seed={} run={} type={:?} nodes={} fee={}", args.seed, run, ctype, prof.nodes, fee_now);
 	if trace {
